@@ -9,6 +9,7 @@ package main
 import (
 	"bytes"
 	"fmt"
+	"go.dedis.ch/kyber/v4/sign/anon"
 	"go.dedis.ch/kyber/v4/util/key"
 	"os"
 	"strings"
@@ -561,6 +562,54 @@ func raceSchemeScenarios() []raceScenario {
 			}
 			return func() string { return fmt.Sprint(schnorr.Verify(g.Group, pub, msg, sig) == nil) }, "true"
 		}})
+	}
+	// ring signatures: the anonymity set (the members' public keys) and the signature are shared; verification
+	// (unlinkable and linkable) and signing by one member run concurrently
+	for _, gname := range []string{"ed25519", "ed25519-allowvt", "p256"} {
+		gname := gname
+		g := groups.ByName(gname)
+		if g == nil {
+			continue
+		}
+		as, ok := g.Suite.(anon.Suite)
+		if !ok {
+			continue
+		}
+		for _, linked := range []bool{false, true} {
+			linked := linked
+			method := "Verify"
+			if linked {
+				method = "Verify (linkable)"
+			}
+			out = append(out, raceScenario{"anon", method, gname, func() (func() string, string) {
+				var scope []byte
+				if linked {
+					scope = []byte("C20 scope")
+				}
+				mk := func() (anon.Set, []byte, kyber.Scalar) {
+					var set anon.Set
+					var mine kyber.Scalar
+					for i := 0; i < 3; i++ {
+						x := g.Group.Scalar().Pick(kc.NewRng(uint64(40 + i)))
+						// members' keys as they come out of arithmetic (not normalised)
+						set = append(set, g.Group.Point().Add(g.Group.Point().Mul(x, nil), g.Group.Point().Null()))
+						if i == 1 {
+							mine = x
+						}
+					}
+					return set, anon.Sign(as, msg, set, scope, 1, mine), mine
+				}
+				set, sig, mine := mk()
+				wset, wsig, _ := mk()
+				f := func(set anon.Set, sig []byte) string {
+					tag, err := anon.Verify(as, msg, set, scope, sig)
+					s2 := anon.Sign(as, msg, set, scope, 1, mine)
+					_, err2 := anon.Verify(as, msg, set, scope, s2)
+					return fmt.Sprint(err == nil, err2 == nil, kc.HexB(tag))
+				}
+				return func() string { return f(set, sig) }, f(wset, wsig)
+			}})
+		}
 	}
 	out = append(out, raceScenario{"eddsa", "Verify", "ed25519", func() (func() string, string) {
 		e := eddsa.NewEdDSA(kc.NewRng(26))
